@@ -74,6 +74,15 @@ def _generate_field_validator(
         # `integer | null` and `uinteger | null` are range checked like `integer`.
         number = [i for i in type_def.items if i.name != "null"][0]
         return _generate_field_validator(number, True)
+    elif (
+        type_def.kind == "or"
+        and len(type_def.items) == 2
+        and sorted(i.kind for i in type_def.items) == ["base", "stringLiteral"]
+        and any(i.kind == "base" and i.name == "null" for i in type_def.items)
+    ):
+        # `"x" | null` accepts its literal (or nothing), like `"x"`.
+        literal = [i for i in type_def.items if i.kind == "stringLiteral"][0]
+        return f"attrs.field(validator=attrs.validators.optional(attrs.validators.in_(['{literal.value}'])), default=None)"
     else:
         validator = None
 
